@@ -164,7 +164,10 @@ def run_tlc(module, cfg=None, env=None, workers=1, timeout=3600, simulate=None, 
             else:
                 lines += ["SPECIFICATION " + spec]
             for k, v in (constants or {}).items():
-                lines.append("CONSTANT %s = %s" % (k, tla_lit(v)))
+                if isinstance(v, str) and v.startswith("<-"):      # substitution by a definition of the module
+                    lines.append("CONSTANT %s <- %s" % (k, v[2:].strip()))
+                else:
+                    lines.append("CONSTANT %s = %s" % (k, tla_lit(v)))
             for i in invariants or []:
                 lines.append("INVARIANT " + i)
             for p in properties or []:
